@@ -40,9 +40,12 @@ def units(tier):
                        cbmc_flags=["--unwind", "6", "--no-signed-overflow-check", "--no-div-by-zero-check", "--object-bits", "10"], timeout=600, replay=rp,
                        assumptions=["RING: adjugate structure proved over Z/2^32 on the unsigned instantiation for the unit-determinant family M = L*U (and its affine extensions); a wrong cofactor index or sign breaks the identity on this family"]))
     # sing33 (3x3): cvc5 time-out at 20 min (harness h_sing33 kept) - not claimed
-    for name, clause, fns in (("sing22", "IEEE: determinant() == 0 => inverse() is the identity (2x2, all finite entries)", ["inverse22f", "det22f"]),):
-        us.append(Unit("c06." + name, H, "h_" + name, includes=[GEN], backend="cvc5", mode="IEEE", functions=[ALIASES[f] for f in fns], clause=clause, no_checks=True,
-                       cbmc_flags=["--unwind", "10", "--no-signed-overflow-check", "--object-bits", "10"], timeout=1200, replay=rp))
+    sing = [("sing22", "IEEE: determinant() == 0 => inverse() is the identity (2x2, all finite entries)", ["inverse22f", "det22f"], "cvc5")]
+    if os.environ.get("C06_SING33"):
+        sing.append(("sing33", "IEEE: determinant() == 0 => inverse() is the identity (3x3, all finite entries)", ["inverse33f", "det33f"], os.environ["C06_SING33"]))
+    for name, clause, fns, be in sing:
+        us.append(Unit("c06." + name, H, "h_" + name, includes=[GEN], backend=be, mode="IEEE", functions=[ALIASES[f] for f in fns], clause=clause, no_checks=True,
+                       cbmc_flags=["--unwind", "10", "--no-signed-overflow-check", "--object-bits", "10"], timeout=1200 if name == "sing22" else 7000, replay=rp))
     # in-place forms leave what value forms return: the C07 relational units for invert
     c07 = importlib.import_module("vf.props.c07")
     for u in c07.units(tier):
